@@ -39,6 +39,14 @@ def C01(V, tier):
     rng = random.Random(seed())
     n = 60 if tier == "quick" else 600
     progs = _programs(n, seed(), "C01", max_ops=5 if tier == "quick" else 8)
+    # the umbrella property also runs a slice of every focused family (keyed joins across different
+    # partitioning calls, aggregations, fan-out/in, loops)
+    k = 14 if tier == "quick" else 70
+    fam = gen.join_programs(rng, k) + gen.agg_programs(rng, k) + gen.fan_programs(rng, k // 2) + gen.loop_programs(rng, k // 2)
+    for i, p in enumerate(fam):
+        p["name"] = f"f{i}_" + p["name"]
+        p["prop"] = "C01"
+    progs += fam
     matrix = gen.config_matrix(rng, n_local=2, n_remote=1, n_batch=2) if tier == "quick" else \
         gen.config_matrix(rng, n_local=3, n_remote=3, n_batch=3)
     jobsuite.run_suite(V, wd, progs, matrix, "C01", perturb_us=200)
@@ -148,6 +156,9 @@ def C05(V, tier):
     n = 40 if tier == "quick" else 400
     progs = _programs(n, seed() + 17, "C05", max_ops=5 if tier == "quick" else 8)
     rng = random.Random(seed())
+    # carry nothing over: the five window kinds over several iterations (metamorphic + per-iteration groups)
+    import prop_windows
+    prop_windows.C05_windows(V, tier)
     # carry nothing over: stateful operators over several iterations (folds, reorder; joins, zip, merge)
     op_replay(V, workdir("C05o"), tier, "C05", ["fold", "kfold", "reorder"])
     binary_replay(V, workdir("C05b"), tier, "C05", JOIN_VARIANTS[:4] + [("zip", {}), ("merge", {})])
@@ -170,6 +181,62 @@ def C06(V, tier):
     # the timestamp-aware operators: window managers / WindowOperator (late results)
     import prop_windows
     prop_windows.C06_windows(V, tier)
+    # T: watermark monitor at every boundary of timestamped pipelines fed by several scripted replicas
+    timestamped_jobs(V, workdir("C06j"), tier)
+
+
+def timestamped_jobs(V, wd, tier):
+    """Per-replica timestamped scripts (the senders of comp/Start.tla behaviours, one iteration) through
+    pipelines of timestamp-aware operators; Boundary.tla runs the watermark monitor (C06) at every probe
+    and behind every Start."""
+    import replay_start as rs
+    rng = random.Random(seed() + 66)
+    q = tier == "quick"
+    r = tlc_check(f"{SPEC}/comp/Start.tla", f"{SPEC}/gen/Start_gen_small.cfg", wd, "gen_small", workers=6,
+                  coverage=False, timeout=900)
+    behs = r["replays"]
+    r2 = tlc_check(f"{SPEC}/comp/Start.tla", f"{SPEC}/gen/Start_gen_sim1.cfg", wd, "gen_sim1", workers=4,
+                   coverage=False, simulate=f"num={40 if q else 400}", extra=["-depth", "120", "-seed", str(seed())],
+                   timeout=900)
+    behs = behs + r2["replays"]
+    rng.shuffle(behs)
+    behs = behs[: (60 if q else 600)]
+    progs = []
+    for bi, b in enumerate(behs):
+        n = b["n"]
+        scripts = [[] for _ in range(n)]
+        for ev in b["h"]:
+            if ev["d"] == "in" and ev["el"]["k"] != "X":
+                e = rs.el_to_script(ev["el"], None)
+                e.pop("after", None)
+                e["delay"] = rng.choice([0, 0, 0, 200])
+                scripts[ev["p"] - 1].append(e)
+        src = {"id": "s", "op": "src", "kind": "script", "repl": "unlimited", "scripts": scripts}
+        t = bi % 6
+        if t == 0:
+            mid = [{"id": "a", "op": "shuffle", "in": ["s"]}, {"id": "o", "op": "map", "f": "inc", "in": ["a"]}]
+        elif t == 1:
+            mid = [{"id": "a", "op": "group_by", "m": rng.choice([1, 2, 3]), "in": ["s"]},
+                   {"id": "o", "op": "event_window", "size": rng.choice([1, 2, 3]), "slide": 1, "agg": "sum", "in": ["a"]}]
+        elif t == 2:
+            mid = [{"id": "a", "op": "shuffle", "in": ["s"]}, {"id": "o", "op": "reorder", "in": ["a"]}]
+        elif t == 3:
+            mid = [{"id": "a", "op": "group_by", "m": rng.choice([1, 2]), "in": ["s"]}, {"id": "o", "op": "kfold", "agg": "sum", "in": ["a"]}]
+        elif t == 4:
+            mid = [{"id": "a", "op": "shuffle", "in": ["s"]}, {"id": "b", "op": "flat_map", "g": "dup", "in": ["a"]},
+                   {"id": "o", "op": "fold", "agg": "sum", "in": ["b"]}]
+        else:
+            mid = [{"id": "a", "op": "replicate", "repl": "one", "in": ["s"]}, {"id": "b", "op": "reorder", "in": ["a"]},
+                   {"id": "c", "op": "group_by", "m": 2, "in": ["b"]},
+                   {"id": "o", "op": "event_window", "size": 2, "slide": 2, "agg": "count", "in": ["c"]}]
+        nodes = [src] + mid + [{"id": "k", "op": "sink", "kind": "collect_vec", "in": ["o"]}]
+        sinks = {"k": {"kind": "collect_vec", "ordered": False}}
+        progs.append({"name": f"ts{bi}", "prog": {"nodes": nodes}, "sinks": sinks, "prop": "C06", "npar": n})
+
+    def cfgs(p):
+        return [({"mode": "local", "par": p["npar"]}, b) for b in ("single", "default", "fixed:2")]
+    jobsuite.run_suite(V, wd, progs, cfgs, "C06", checks=("boundary",), perturb_us=150)
+    V.coverage["timestamped_jobs"] = len(progs) * 3
 
 
 def C02(V, tier):
@@ -188,6 +255,27 @@ def C02(V, tier):
               ({"mode": "remote", "hosts": [2, 2]}, "single"), ({"mode": "remote", "hosts": [3, 1]}, "fixed:3"),
               ({"mode": "remote", "hosts": [1, 1, 2]}, "adaptive:2:500"), ({"mode": "local", "par": 4}, "default")]
     jobsuite.run_suite(V, wd, progs, matrix, "C02", checks=("link",), perturb_us=300)
+    # all message sizes: frames far above a TCP segment / socket buffer (large batches of a long stream),
+    # several producers sharing one connection; judged by the sink counts and sums (D), not traced
+    big = []
+    for i, (n, shape) in enumerate([(60000, "shuffle"), (90000, "group"), (40000, "shuffle2")] if tier == "quick" else
+                                   [(60000, "shuffle"), (90000, "group"), (40000, "shuffle2"), (200000, "shuffle"), (150000, "group")]):
+        # only operators whose sequential meaning TLC computes without deep recursion on 10^5 elements
+        nodes = [{"id": "s", "op": "src", "kind": "par_range", "lo": 0, "hi": n}]
+        if shape == "shuffle":
+            nodes += [{"id": "o", "op": "shuffle", "in": ["s"]}]
+        elif shape == "group":
+            nodes += [{"id": "a", "op": "group_by", "m": 7, "in": ["s"]}, {"id": "o", "op": "drop_key", "in": ["a"]}]
+        else:
+            nodes += [{"id": "a", "op": "shuffle", "in": ["s"]}, {"id": "b", "op": "map", "f": "inc", "in": ["a"]},
+                      {"id": "o", "op": "shuffle", "in": ["b"]}]
+        nodes.append({"id": "k", "op": "sink", "kind": "collect_count", "in": ["o"]})
+        big.append({"name": f"big{i}", "prog": {"nodes": nodes}, "sinks": {"k": {"kind": "collect_count", "ordered": False}},
+                    "prop": "C02"})
+    bigmatrix = [({"mode": "remote", "hosts": [1, 1]}, "fixed:20000"), ({"mode": "remote", "hosts": [2, 2]}, "fixed:50000"),
+                 ({"mode": "remote", "hosts": [2, 1]}, "default")]
+    jobsuite.run_suite(V, workdir("C02big"), big, bigmatrix, "C02", checks=("result",), trace=False, perturb_us=0,
+                       hang_ms=20000)
 
 
 # ------------------------------------------------------------------------------------------------
@@ -361,6 +449,18 @@ def routing_templates():
             nodes.append(snk(f"k{i}", f"rt.{i}"))
         T.append(("route_" + "_".join(preds), nodes,
                   [{"probe": "m", "kind": "route", "preds": preds, "after": [f"rt.{i}" for i in range(len(preds))]}]))
+    # co-partitioning across API calls: a group_by_* aggregation (its shuffle is made inside the call)
+    # keyed-joined with a plain group_by: equal keys of both sides must sit on the same replica index
+    for mod, kind in ((3, "gb_count"), (5, "gb_sum"), (7, "gb_fold"), (11, "gb_max")):
+        gl = {"id": "gl", "op": kind, "m": mod, "in": ["l"]}
+        if kind == "gb_fold":
+            gl["agg"] = "sum"
+        T.append((f"copartition_{kind}_{mod}",
+                  [src("l", 0, 60), gl, src("r", 0, 45), {"id": "rm", "op": "map", "f": "id", "in": ["r"]},
+                   {"id": "gr", "op": "group_by", "m": mod, "in": ["rm"]},
+                   {"id": "j", "op": "kjoin", "variant": "outer", "in": ["gl", "gr"]}, snk("k", "j")],
+                  [{"probe": "gl", "kind": "groupby_dest", "keyspace": "kj", "after": ["gl"]},
+                   {"probe": "rm", "kind": "groupby", "m": mod, "keyspace": "kj", "after": ["gr"]}]))
     # key_by + keyed merge: forward with two producers blocks
     T.append(("zip", [{"id": "a", "op": "src", "kind": "iter", "data": list(range(20))},
                       {"id": "b", "op": "src", "kind": "iter", "data": list(range(30, 45))},
@@ -743,8 +843,22 @@ def C04(V, tier):
     # stress: enlarge the par_range sources (100..400 elements >> 16 batches per link)
     for p in progs:
         for n in p["prog"]["nodes"]:
-            if n["op"] == "src" and n.get("kind") == "par_range" and n["hi"] - n["lo"] >= 5 and "loop" not in p["name"]:
+            if n["op"] == "src" and n.get("kind") == "par_range" and n["hi"] - n["lo"] >= 5:
+                # loops too: the content of an iterate loop must exceed the capacity of its feedback cycle
+                # (2 x 16 batches) under tiny batches; amplifying bodies are generated for replay only (F9)
                 n["hi"] = n["lo"] + (rng.choice([80, 120, 200]) if q else rng.choice([100, 250, 400]))
+    # iterate loops whose content exceeds the bounded feedback cycle (2 x 16 batches) several times over
+    for i in range(6 if q else 40):
+        body = [{"id": "L_a", "op": "map", "f": rng.choice(["inc", "id", "add10"]), "in": ["$in"]}]
+        if i % 2:
+            body.append({"id": "L_b", "op": "shuffle", "in": ["L_a"]})
+        nodes = [{"id": "s", "op": "src", "kind": "par_range", "lo": 0, "hi": rng.choice([150, 300, 600])},
+                 {"id": "L", "op": "iterate", "rounds": rng.choice([2, 3, 4]), "init": 0, "lfold": "count", "gfold": "count",
+                  "cond": "always", "body": body, "out": body[-1]["id"], "in": ["s"]},
+                 {"id": "ks", "op": "sink", "kind": "collect_vec", "in": ["L.state"]},
+                 {"id": "ko", "op": "sink", "kind": "collect_count", "in": ["L.out"]}]
+        progs.append({"name": f"bigiter{i}", "prog": {"nodes": nodes},
+                      "sinks": {"ks": {"kind": "collect_vec", "ordered": False}, "ko": {"kind": "collect_count", "ordered": False}}})
     extra = _programs(12 if q else 200, seed() + 404, "C04", max_ops=6)
     for p in extra:
         p["name"] = "g" + p["name"]
